@@ -278,6 +278,15 @@ def handle (op : String) (args res : List String) : Option String :=
       let T := exactCompareDistance x y r
       some (verdictP [showI T] res (if res != [showI T] then some "exactCompareDistance-not-exact-comparison" else none))
     | _ => none
+  | "c02err" => do
+    let ps ← parsePts? args
+    match ps with
+    | [x, y] =>
+      if !allFinite ps then some "bad nonfinite" else
+      let (c, ce) := cosDistance x y
+      let (n, ne) := sin2Distance x y
+      some (verdict [showF64 c, showF64 ce, showF64 n, showF64 ne] res)
+    | _ => none
   | "c02sdp" => do
     let ps ← parsePts? args
     match ps with
